@@ -174,10 +174,14 @@ def verify_machine(res, name, path, wd, base, cfile, ctext, index, root):
                      timeout=1200, mem_gb=12, meta={'doc': name})
     rt = cbmcrun.verify(jt)
     if rt['status'] == 'error' and rt['reason'].startswith('goto-cc failed') and os.path.basename(cfile) in rt['reason']:
-        # the emitted file itself is not valid C (e.g. it references a function the transpiler did not emit):
-        # the document is outside the fragment the C transpiler supports
+        # the emitted file itself is not valid C (it references a function the transpiler did not emit, an initialiser
+        # list is longer than the array the sizing macros declare, ...): an obligation of C04 in its own right
         m = re.search(r'error: [^\n]*', rt['reason'])
-        res.update(status='skip', skip='emitted C does not compile (%s): document outside the fragment the C transpiler supports' % (m.group(0)[:160] if m else 'goto-cc error'))
+        res['tables'] = {'name': base + '.tables', 'status': 'ok', 'reason': '', 'obligations': 1, 'discharged': 0, 'canaries_fired': 1, 'canaries_total': 1,
+                         'time': rt.get('time', {}), 'classes': {}, 'samples': [], 'tags': {'C04': [1, 0]}, 'checker_cmd': 'goto-cc ' + cfile,
+                         'failed': [{'property': 'emitted_c.compile', 'tag': 'C04', 'location': {'file': cfile},
+                                     'description': 'C04.compile: the emitted file is valid C with the sizing macros the generator itself emits (%s)' % (m.group(0)[:200] if m else 'goto-cc error')}]}
+        res['step'] = {}
         return res
     res['tables'] = slim(rt)
     # ---- step (C04 Level D + C02)
